@@ -137,11 +137,26 @@ def run(ctx):
     ctx.tlc_check('MC_DlisFrames', 'DlisFrames', consts={'Selections': tlc.raw(raw_sels), 'Requests': tlc.raw(reqs)},
                   cfg_consts={'N': ctx.pick('4', '5'), 'NCh': '3', 'MaxN': '5', 'NoneV': 'NoneV'},
                   invariants=['NoStaleWhenIdle', 'RowsInRange', 'LengthsAgree', 'FirstAlways'], need_actions=['InitArrays', 'ReadFrame', 'Return'], timeout=900)
+    from TotalDepth.RP66V1 import IndexPickle
+    import os
+    pdir = ctx.wdir('pickle')
     traces, cases, meta = [], [], []
     for fi in range(ctx.pick(250, 2000)):
         data, types, frame_nos = build(rng, ctx.quick)
+        persisted = (fi % 3 == 2)
         try:
-            li = LogicalFile.LogicalIndex(io.BytesIO(data))
+            if persisted:
+                # the index persisted by IndexPickle and read back must behave exactly like the fresh one
+                pin = os.path.join(pdir, 'f.dlis')
+                with open(pin, 'wb') as f_:
+                    f_.write(data)
+                res = IndexPickle.index_a_single_file(pin, os.path.join(pdir, 'o', 'f.dlis'), True)
+                if res.exception or res.ignored:
+                    ctx.fail('IndexPickle.index_a_single_file reports %r for a valid file' % (res,), dict(types=str(types)[:400]), sig=dict(kind='index-pickle'))
+                    continue
+                li = IndexPickle.unpickle(os.path.join(pdir, 'o', 'f.dlis.pkl'))
+            else:
+                li = LogicalFile.LogicalIndex(io.BytesIO(data))
             li.__enter__()
             lf = li.logical_files[0]
         except Exception as e:
@@ -152,7 +167,7 @@ def run(ctx):
             n = ty['n']
             nch = len(ty['channels'])
             tr = []
-            m = dict(frame_type=t, records=n, channels=[(c['rc'], c['dims']) for c in ty['channels']])
+            m = dict(frame_type=t, records=n, channels=[(c['rc'], c['dims']) for c in ty['channels']], persisted_index=persisted)
             xax = lf.iflr_position_map[fa.ident]
             xrecs = [record_of(ty['channels'][0]['rc'], xax[i].x_axis, 0, 0) for i in range(len(xax))]
             tr.append(dict(op='index', frames=len(xax), frameNos=[xax[i].frame_number for i in range(len(xax))], xrecs=[-1 if v is None else v for v in xrecs]))
